@@ -33,11 +33,11 @@ def code_letters(f, seed):
     return sorted(s)
 
 
-def mk(f, cs, shape):
+def mk(f, cs, shape, **kw):
     if shape == 'scalar':
-        return Fxp(cs[0], f.signed, f.n_word, f.n_frac, raw=True)
+        return Fxp(cs[0], f.signed, f.n_word, f.n_frac, raw=True, **kw)
     arr = np.array(cs, dtype=object if f.n_word >= 64 else (np.int64 if f.signed else np.uint64))
-    return Fxp(arr.reshape(shape), f.signed, f.n_word, f.n_frac, raw=True)
+    return Fxp(arr.reshape(shape), f.signed, f.n_word, f.n_frac, raw=True, **kw)
 
 
 def result_of(op, fa, fb, a, b):
@@ -46,10 +46,14 @@ def result_of(op, fa, fb, a, b):
     return fz, r
 
 
-def judge(acc, fa, fb, xs, ys, op, shape_mode, part, hist=False):
+WIDE_ENVS = ({'n_word_max': 128}, {'n_word_max': 256, 'array_output_type': 'array'}, {'bin_prefix': '0b', 'n_word_max': 65}, {'rounding': 'around', 'max_error': 0.5}, {'n_word_max': 32},
+             {'op_input_size': 'best', 'const_op_sizing': 'same'}, {'shifting': 'trunc', 'dtype_notation': 'Q'}, {'array_op_method': 'raw'})
+
+
+def judge(acc, fa, fb, xs, ys, op, shape_mode, part, hist=False, env=None):
     """shape_mode 'self': the same object on both sides.  hist (with 'vec'): the operands first hold other codes and are operated on,
     then every element is written in place (the buffer object stays), then the judged operation runs"""
-    case = {'part': part, 'fx': list(fa), 'fy': list(fb), 'xs': list(xs), 'ys': list(ys), 'op': op, 'shape': shape_mode, 'hist': hist}
+    case = {'part': part, 'fx': list(fa), 'fy': list(fb), 'xs': list(xs), 'ys': list(ys), 'op': op, 'shape': shape_mode, 'hist': hist, 'env': env}
     if shape_mode == 'outer':
         pairs = [(a, b) for a in xs for b in ys]
         sx, sy = (-1, 1), (1, -1)
@@ -93,6 +97,10 @@ def judge(acc, fa, fb, xs, ys, op, shape_mode, part, hist=False):
         elif shape_mode == 'self':
             x = y = mk(fa, xs, sx)
             acc.dim('history', 'same object on both sides', len(pairs))
+        elif env is not None:
+            # non-default configuration options on the operands: none of them may change exact arithmetic with optimal sizing
+            x, y = mk(fa, xs, sx, **WIDE_ENVS[env]), mk(fb, ys, sy, **WIDE_ENVS[(env + 3) % len(WIDE_ENVS)])
+            acc.dim('environment', str(sorted(WIDE_ENVS[env])), len(pairs))
         else:
             x, y = mk(fa, xs, sx), mk(fb, ys, sy)
         z = apply(op, 'operator', x, y)
@@ -215,6 +223,8 @@ def run_shard(sh):
                                     judge(acc, fa, fb, xs, ys, op, 'vec', 'A', True)
                                 if fa == fb:
                                     judge(acc, fa, fa, xs, xs, op, 'self', 'A')
+                                if nfb in (0, wb) and nfa in (0, wa):
+                                    judge(acc, fa, fb, xs, ys, op, 'outer', 'A', False, (wa + wb + nfa + nfb + int(sa) + 2 * int(sb) + OPS.index(op)) % len(WIDE_ENVS))
                                 # second level: (x op y) op2 w, staying below 256 bits
                                 if res is not None and nfa == 0 and nfb == 0 and wa in (31, 32, 53, 63, 64, 70) and wb in (32, 33, 62, 64):
                                     z, fz, exps = res
@@ -274,7 +284,7 @@ def replay(case):
             except Exception as e:
                 acc.violation('exception', case, repr(e), {'part': 'A2', 'op': op2, 'exc': type(e).__name__})
     else:
-        judge(acc, Fmt(*case['fx']), Fmt(*case['fy']), case['xs'], case['ys'], case['op'], case['shape'], case['part'], case.get('hist', False))
+        judge(acc, Fmt(*case['fx']), Fmt(*case['fy']), case['xs'], case['ys'], case['op'], case['shape'], case['part'], case.get('hist', False), case.get('env'))
     return acc.violations
 
 
